@@ -166,8 +166,15 @@ func checkC09(c *Ctx) {
 			field, class = "size", "large"
 			val = fmt.Sprintf("more than %d KiB", largeSizes[idx]>>10)
 			filler := strings.Repeat("x", 2000)
+			// (every third device is filled with characters a writer has to escape, at every
+			// alignment the device names of growing length give them)
+			special := strings.Repeat("\u0085a\u009f\uffff", 250)
 			for n := 0; n*2060 < largeSizes[idx]; n++ {
-				s.Devices = append(s.Devices, specs.Device{Name: fmt.Sprintf("fill%d", n), ContainerEdits: specs.ContainerEdits{Env: []string{"F=" + filler}}})
+				f := filler
+				if n%3 == 1 {
+					f = special
+				}
+				s.Devices = append(s.Devices, specs.Device{Name: fmt.Sprintf("fill%d", n), ContainerEdits: specs.ContainerEdits{Env: []string{"F=" + f}}})
 			}
 			s.Devices = append(s.Devices, specs.Device{Name: "last", ContainerEdits: specs.ContainerEdits{Env: []string{"LAST=1"}}})
 			c.Count("large_specs", 1)
@@ -264,13 +271,15 @@ func checkC09(c *Ctx) {
 		if leftovers {
 			c.Count("writes_next_to_leftovers_of_interrupted_writers", 1)
 		}
-		for _, name := range []string{"x.json", "x.yaml", "x"} {
+		// (the fourth name ends in something that is not exactly ".json" or ".yaml": like a
+		// name without extension it gets ".yaml" appended)
+		for _, name := range []string{"x.json", "x.yaml", "x", pickStr(r, "x.YAML", "x.Json", "x.JSON", "x.yml", "x.json.bak", "x.yaml.", "x.Yaml")} {
 			enc := "yaml"
 			if name == "x.json" {
 				enc = "json"
 			}
 			file := filepath.Join(sub, name)
-			if name == "x" {
+			if name != "x.json" && name != "x.yaml" {
 				file += ".yaml"
 			}
 			os.Remove(filepath.Join(sub, "x.yaml"))
